@@ -158,6 +158,9 @@ class C17(Check):
 
     def model_checks(self, ctx):
         model_check(ctx, "MC_TmatmulClip", "MC_TmatmulClip_%s.cfg" % ctx.tier, timeout=2400)
+        # unbounded companion (Apalache / SMT, ~4 s): for every block origin, block extents, K and tag pair the clipped k range contains
+        # every structurally non-zero term of every cell of the block (the model-level form of seeded change C17a is refuted by it)
+        apalache_check(ctx, "ClipUnbounded", "Inv")
 
     def plan(self, ctx):
         cfg = "GenTmatmul_%s.cfg" % ctx.tier
